@@ -1088,9 +1088,11 @@ class Canon(object):
         them is then a single-assignment alias the rules can look through.  Decided on the block structure: a read is covered
         by the nearest preceding binding in its own or an enclosing block; loops / try blocks that rebind the name, reads after
         a conditional rebinding, closures, augmented assignments, del, for/with/except targets make the name ineligible."""
-        if any(isinstance(n, (ast.Lambda, ast.ClassDef, ast.Global, ast.Nonlocal, ast.ListComp, ast.SetComp, ast.DictComp, ast.GeneratorExp)) for n in ast.walk(fn)):
+        if any(isinstance(n, (ast.ClassDef, ast.Global, ast.Nonlocal)) for n in ast.walk(fn)):
             return
         if any(isinstance(n, (ast.FunctionDef, ast.AsyncFunctionDef)) for n in ast.walk(fn) if n is not fn):
+            return
+        if any(isinstance(n, ast.Call) and isinstance(n.func, ast.Name) and n.func.id in ('vars', 'eval', 'exec') for n in ast.walk(fn)):
             return
         params = set(a.arg for a in fn.args.args + fn.args.kwonlyargs + fn.args.posonlyargs)
         if fn.args.vararg:
@@ -1098,9 +1100,19 @@ class Canon(object):
         if fn.args.kwarg:
             params.add(fn.args.kwarg.arg)
         defs, bad = {}, set()
+        # names that occur inside a comprehension / lambda have a scope of their own there: left alone
+        for n in ast.walk(fn):
+            if isinstance(n, (ast.Lambda, ast.ListComp, ast.SetComp, ast.DictComp, ast.GeneratorExp)):
+                for x in ast.walk(n):
+                    if isinstance(x, ast.Name):
+                        bad.add(x.id)
         for n in ast.walk(fn):
             if isinstance(n, ast.Assign) and len(n.targets) == 1 and isinstance(n.targets[0], ast.Name):
-                if (_chain(n.value) or getattr(n, '_inl', False)) and not (isinstance(n.value, ast.Name) and n.value.id == n.targets[0].id) \
+                if (_chain(n.value) or getattr(n, '_inl', False) or (_pure(n.value) and not isinstance(n.value, (ast.Constant, ast.Name)))
+                        or (isinstance(n.value, (ast.Constant, ast.Name)) and any(_pure(o.value) and isinstance(o.value, (ast.Subscript, ast.Attribute))
+                                                                                   for o in ast.walk(fn) if isinstance(o, ast.Assign) and len(o.targets) == 1
+                                                                                   and isinstance(o.targets[0], ast.Name) and o.targets[0].id == n.targets[0].id))) \
+                        and not (isinstance(n.value, ast.Name) and n.value.id == n.targets[0].id) \
                         and not any(isinstance(x, ast.Name) and x.id == n.targets[0].id for x in ast.walk(n.value)):
                     defs.setdefault(n.targets[0].id, []).append(n)
                 else:
